@@ -27,6 +27,7 @@ fn main() {
         ("replay", "numfmt") => props::numfmt::replay(&args),
         ("drive", "numfmt") => props::numfmt::drive(&args),
         ("replay", "numfmt_builtin") => props::numfmt::builtin_files(&args),
+        ("drive", "dates") => props::dates::drive(&args),
         ("replay", "de") => props::de::replay(&args),
         ("drive", "de") => props::de::drive(&args),
         _ => {
